@@ -425,6 +425,9 @@ def run(pm, ctx):
               msg='bv.Struct.validate_type_only no longer tests isinstance(val, self.definition) '
                   'only', key='C07-R9|%s' % vto.qualname)
 
+    ctx.import_rules(pm, 'C02', {'C02-R5'}, 'C07-R10',
+                     'required / optional field listings of the IR are complete, parent first, with '
+                     'complementary predicates (shared with C02-R5)')
     from ..effects import run_decisions
     from ..ownership import OWN
     run_decisions(pm, ctx, 'C07-RD', OWN['C07'])
